@@ -28,8 +28,8 @@ class EvalMixin(object):
 
     def e_Num(self, n):
         if n.isfloat:
-            return tm.mk_real(Fraction(n.text.rstrip('fFlL')) if 'e' not in n.text.lower() and 'x' not in n.text.lower()
-                              else Fraction(repr(float(n.text))))
+            # the double nearest to the literal (what the compiled code holds), as an exact rational
+            return tm.mk_real(Fraction(repr(float(n.text.rstrip('fFlL')))))
         return n.v
 
     def e_Str(self, n):
